@@ -3,7 +3,7 @@
 //! Ids come from disjoint ranges (`cid << 40 | n`) so that a call reaching the wrong collector
 //! is visible.  One variant returns a NEW id from `clone_span` (allowed by the trait docs).
 use std::collections::HashMap;
-use std::sync::atomic::{AtomicU64, Ordering};
+use std::sync::atomic::{AtomicBool, AtomicU64, AtomicUsize, Ordering};
 use std::sync::Mutex;
 use std::thread::ThreadId;
 use tracing_core::span::{Attributes, Current, Id, Record};
@@ -45,8 +45,11 @@ struct St {
 
 pub struct Proto {
     pub cid: u64,
-    /// accept level rank <= thresh (1 = ERROR .. 5 = TRACE)
-    pub thresh: usize,
+    /// accept level rank <= thresh (1 = ERROR .. 5 = TRACE); may be changed at run time (followed
+    /// by `rebuild_interest_cache`)
+    thresh: AtomicUsize,
+    /// announce the threshold as `max_level_hint` (a true bound) instead of `None`
+    hint_on: AtomicBool,
     /// clone_span returns a fresh alias id
     pub reid: bool,
     /// ids are plain counters from 1 (as the registry and most hand-written collectors number
@@ -64,12 +67,21 @@ impl Proto {
     pub fn new(cid: u64, thresh: usize, reid: bool) -> Self {
         Proto {
             cid,
-            thresh,
+            thresh: AtomicUsize::new(thresh),
+            hint_on: AtomicBool::new(false),
             reid,
             overlap: false,
             next: AtomicU64::new(1),
             st: Mutex::new(St::default()),
         }
+    }
+    pub fn thresh(&self) -> usize {
+        self.thresh.load(Ordering::SeqCst)
+    }
+    /// change the filter; the caller runs `rebuild_interest_cache()` afterwards
+    pub fn refilter(&self, thresh: usize, hint_on: bool) {
+        self.thresh.store(thresh, Ordering::SeqCst);
+        self.hint_on.store(hint_on, Ordering::SeqCst);
     }
     pub fn overlapping(mut self) -> Self {
         self.overlap = true;
@@ -168,17 +180,21 @@ impl Proto {
 
 impl Collect for Proto {
     fn register_callsite(&self, m: &'static Metadata<'static>) -> Interest {
-        if crate::rec::rank(m.level()) <= self.thresh {
+        if crate::rec::rank(m.level()) <= self.thresh() {
             Interest::always()
         } else {
             Interest::never()
         }
     }
     fn enabled(&self, m: &Metadata<'_>) -> bool {
-        crate::rec::rank(m.level()) <= self.thresh
+        crate::rec::rank(m.level()) <= self.thresh()
     }
     fn max_level_hint(&self) -> Option<LevelFilter> {
-        None
+        if self.hint_on.load(Ordering::SeqCst) {
+            Some(crate::rec::filter_of(self.thresh()))
+        } else {
+            None
+        }
     }
     fn new_span(&self, a: &Attributes<'_>) -> Id {
         let id = self.alloc();
